@@ -40,11 +40,11 @@ Proof.
 Qed.
 
 (* section loops: slope = per-record constant (a record is at least 11 bytes) *)
-Definition AS : N := AR + (KREC + 1).
+Definition AS : N := AR + 143.
 
 Lemma ok_read_records count add op : ok AS (KREC + 1) 0 (read_records count add op).
 Proof.
-  unfold read_records, AS. apply (ok_repeat AR KREC 11); [intros; apply ok_records_step|lia].
+  unfold read_records, AS. apply (ok_repeat_q AR KREC 11 143); [intros; apply ok_records_step|unfold KREC; lia].
 Qed.
 
 Lemma ok_read_query : ok 0 516 5 read_query.
@@ -74,7 +74,7 @@ Qed.
 
 Lemma ok_slice_from start : ok 0 0 0 (slice_from start).
 Proof.
-  intros c l Hc Hl. unfold slice_from. destruct (pos c <? start); constructor; cbn; try assumption; try apply same_refl; try exact I; try discriminate; try (unfold Hmax; lia).
+  intros c l Hc Hl. unfold slice_from. destruct (pos c <? start); constructor; cbn; try assumption; try apply same_refl; try exact I; try discriminate; try lia.
 Qed.
 
 Lemma ok_read_request : ok AS KM 17 read_request.
